@@ -71,7 +71,7 @@ def var_block(v, extra=()):
 
 
 BKW = {"harmonic": "harmonic", "linear": "linear", "walls": "harmonicWalls", "generic": "metadynamics",
-       "abmd": "abmd", "alb": "ALB"}
+       "abmd": "abmd", "alb": "ALB", "histrestraint": "histogramRestraint"}
 
 
 def bias_block(b):
@@ -93,6 +93,9 @@ def bias_block(b):
             L += ["  targetForceConstant %r" % b["tk"], "  targetNumSteps %d" % b["N"]]
     elif k == "generic":
         L += ["  hillWeight 0.125", "  hillWidth 1.0", "  newHillFrequency 3", "  useGrids off"]
+    elif k == "histrestraint":
+        L += ["  lowerBoundary -4.0", "  upperBoundary 4.0", "  width 1.0", "  gaussianSigma 1.0",
+              "  refHistogram 0.0 0.125 0.25 0.5 0.5 0.25 0.125 0.0", "  forceConstant 1.0"]
     elif k == "abmd":
         L += ["  forceConstant 1.0", "  stoppingValue 6.0"]
     elif k == "alb":
@@ -120,7 +123,8 @@ def enc_var(v):
     return [str(v["id"])] + ["1" if v.get(k, k == "value") else "0" for k in ("value", "velocity", "energy", "tforce", "aforce", "extlag")] + ["0"]
 
 
-MKIND = {"harmonic": "harmonic", "linear": "linear", "walls": "walls", "generic": "generic", "abmd": "abmd", "alb": "alb"}
+MKIND = {"harmonic": "harmonic", "linear": "linear", "walls": "walls", "generic": "generic", "abmd": "abmd", "alb": "alb",
+         "histrestraint": "histrestraint"}
 
 
 def enc_bias(b):
@@ -637,6 +641,36 @@ def check_traj_case(run, c, k, impl_lines, scratch, model):
     for b in c["biases"] + [e[1] for e in c["events"] if e[0] == "addbias"]:
         biasvars["b%d" % b["id"]] = ["v%d" % i for i in b["vars"]]
     ncmp = 0
+    if c.get("lagged") and c.get("eforce"):
+        # tie of the lagged total-force model: first segment, plain scalar variables
+        nfirst = len(segs[0]["calcs"])
+        efx = {v["id"]: c["eforce"][v["id"]] for v in c["vars"]}
+        efl = []
+        for ev in c["events"]:
+            if ev[0] == "step":
+                if len(ev) > 2 and ev[2]:
+                    for vid, f in ev[2].items():
+                        efx[int(vid)] = f
+                efl.append(dict(efx))
+        for v in c["vars"]:
+            if v["type"] != "z" or v.get("extlag"):
+                continue
+            fh = flag_history(c, v["id"], "tforce")
+            if not any(fh[:nfirst]):
+                continue
+            hl = ["%d %d %s" % (calcs[j]["it"] - c["it0"], 1 if fh[j] else 0, hx(efl[j][v["id"]])) for j in range(nfirst)]
+            rc3, m3, e3 = V.run_lines(model, ["LFRUN %d %s" % (nfirst, " ".join(hl))])
+            if rc3 != 0 or not m3:
+                run.mismatch("lagged-model", c, e3[-200:], m3[:1])
+                continue
+            mft = [float.fromhex(q) for q in m3[0].split()]
+            for j in range(nfirst):
+                if fh[j]:
+                    run.dist("tie:lagged-ft")
+                    got = calcs[j]["v"]["v%d" % v["id"]]["ft"]
+                    if not close(got, mft[j]):
+                        run.mismatch("lagged-ft", c, (calcs[j]["it"], got), (calcs[j]["it"], mft[j]))
+                        break
     c06exp = c06_expectations(c)
     deleted_at = {}
     jj = 0
@@ -803,7 +837,7 @@ def gen_traj_case(r, tier):
     zvars = [v["id"] for v in vars_ if v["type"] == "z" and not v["extlag"]]
 
     def mkbias(bid):
-        kinds = ["harmonic", "harmonic", "linear", "walls", "generic", "abmd", "alb"]
+        kinds = ["harmonic", "harmonic", "linear", "walls", "generic", "abmd", "alb", "histrestraint"]
         kd = r.choice(kinds)
         b = {"id": bid, "kind": kd, "energy": r.random() < 0.7}
         if kd in ("harmonic", "linear"):
@@ -839,7 +873,7 @@ def gen_traj_case(r, tier):
             b["tk"] = 4.0
             b["N"] = r.choice([4, 8])
             b["accw"] = b["chgk"] and r.random() < 0.7
-        elif kd in ("generic", "abmd", "alb"):
+        elif kd in ("generic", "abmd", "alb", "histrestraint"):
             cand = [v["id"] for v in vars_ if v["type"] == "z"]
             if not cand:
                 return None
@@ -1381,9 +1415,13 @@ def out_scenario(c, k):
         bl += ["abf {", "  name a0", "  colvars v0", "  fullSamples 1", "  outputFreq %d" % c["abf"]["F"], "  historyFreq %d" % c["abf"]["H"], "}"]
     for b, f in c["biases"]:
         bl += ["histogram {", "  name b%d" % b, "  colvars v0", "  outputFreq %d" % f, "}"]
+    if c.get("opes"):
+        bl += ["opes_metad {", "  name o0", "  colvars v0", "  newHillFrequency %d" % c["opes"]["p"], "  barrier 5.0", "  gaussianSigma 0.5",
+               "  printTrajectoryFrequency %d" % c["opes"]["q"], "  outputFreq %d" % c["opes"]["F"], "}"]
     if c.get("meta"):
         bl += ["metadynamics {", "  name m0", "  colvars v0", "  hillWeight 0.125", "  hillWidth 1.0", "  newHillFrequency %d" % c["meta"]["h"],
-               "  outputFreq %d" % c["meta"]["F"], "  writeHillsTrajectory on", "  keepFreeEnergyFiles on", "}"]
+               "  outputFreq %d" % c["meta"]["F"], "  writeHillsTrajectory on", "  keepFreeEnergyFiles on"] + \
+              (["  wellTempered on", "  biasTemperature %r" % c["meta"]["wt"]] if c["meta"].get("wt") else []) + ["}"]
     L = ["echo CASE %d" % k, "natoms 2", "temperature 300", "dt 1.0", "prefix c%ds0" % k, "restartfreq %d" % c["R"], "new", "capture"]
     if c["it0"]:
         L.append("setstep %d" % c["it0"])
@@ -1489,7 +1527,8 @@ def check_out_case(run, c, k, impl_lines, scratch, model):
             en = [float.fromhex(q) for q in gm[-1].split("energy=")[1].split(",")]
             fp = [float(ln.split()[1]) for ln in open(lastp) if ln.split() and not ln.startswith("#")]
             mx = max(en)
-            wp = [mx - e_ for e_ in en]
+            scale = (c["meta"]["wt"] + 300.0) / c["meta"]["wt"] if c["meta"].get("wt") else 1.0     # (T_bias + T)/T_bias
+            wp = [(mx - e_) * scale for e_ in en]
             run.dist("oracle:meta-pmf-vs-grid")
             if len(fp) != len(wp) or any(abs(a - b) > 1e-12 * max(1.0, abs(mx)) for a, b in zip(fp, wp)):
                 run.violation("outfiles:meta-pmf-content", "the free-energy file of step %d differs from max(E) - E of the tabulated hills energy "
@@ -1502,6 +1541,30 @@ def check_out_case(run, c, k, impl_lines, scratch, model):
                           ([r_[0] for r_ in recs], [w_[0] for w_ in wantrec]), replay)
         elif any(not close(a[1], b[1], OTOL) for a, b in zip(recs, wantrec)):
             run.violation("outfiles:hills-traj-centres", "hills trajectory %s, deposited hills %s" % (recs[:6], wantrec[:6]), replay)
+    if c.get("opes"):
+        # OPES: the .misc.traj and .kernels.dat files are buffered record files written with the bias's output files; after
+        # the run they hold one record per recorded step, stamped with the time step*dt/1000, in increasing order
+        dt = 1.0
+        for suffix, fq, sig in ((".misc.traj", c["opes"]["q"], "misc"), (".kernels.dat", c["opes"]["p"], "kernels")):
+            fp_ = os.path.join(scratch, "c%ds0.colvars.o0%s" % (k, suffix))
+            recs = []
+            if os.path.exists(fp_):
+                for ln in open(fp_):
+                    t = ln.split()
+                    if t and not t[0].startswith("#"):
+                        recs.append((int(round(float(t[0]) * 1000.0 / dt)), float(t[1])))
+            run.dist("oracle:opes-" + sig)
+            steps_ = [r_[0] for r_ in recs]
+            if any(b_ <= a_ for a_, b_ in zip(steps_, steps_[1:])):
+                run.violation("outfiles:opes-repeated-step", "the OPES %s file has records for the steps %s: a step evaluated twice (run boundary) "
+                              "is recorded%s twice" % (suffix, steps_, " and its kernel deposited" if sig == "kernels" else ""), replay)
+                continue
+            if any(st_ % fq for st_ in steps_) or any(st_ not in xs_by_it for st_ in steps_):
+                run.violation("outfiles:opes-steps", "OPES %s records at steps %s, frequency %d over the steps %s" % (suffix, steps_, fq, dedup_its), replay)
+            elif any(not close(x_, float(xs_by_it[st_]), OTOL) for st_, x_ in recs):
+                run.violation("outfiles:opes-values", "OPES %s records %s do not carry the variable's value of their step" % (suffix, recs[:5]), replay)
+            elif sig == "misc" and steps_ != [i for i in dedup_its if i % fq == 0]:
+                run.violation("outfiles:opes-steps", "OPES %s records at steps %s, frequency %d over the steps %s" % (suffix, steps_, fq, dedup_its), replay)
     if c.get("abf"):
         # the history files get one block per write at a multiple of historyFreq (not twice for one step)
         H = c["abf"]["H"]
@@ -1592,10 +1655,13 @@ def gen_out_case(r, tier):
     c = {"kind": "out", "R": R, "biases": biases, "it0": it0, "events": events}
     u = r.random()
     if u < 0.35:
-        c["meta"] = {"h": r.choice([1, 2, 3]), "F": r.choice([0, 2, 3, 4])}
+        c["meta"] = {"h": r.choice([1, 2, 3]), "F": r.choice([0, 2, 3, 4]), "wt": r.choice([None, None, 300.0, 900.0])}
     elif u < 0.6:
         F = r.choice([1, 2, 3])
         c["abf"] = {"F": F, "H": F * r.choice([1, 2, 3])}
+        c["biases"] = []
+    elif u < 0.8:
+        c["opes"] = {"p": r.choice([1, 2, 3]), "q": r.choice([1, 2, 3]), "F": r.choice([0, 2, 3])}
         c["biases"] = []
     return c
 
@@ -1632,12 +1698,18 @@ def check_label_case(run, c, k, impl_lines, scratch, model):
     for nm in c["names"]:
         cols += [("", nm, 21), ("v_", nm, 21), ("fa_", nm, 21)]
     cols += [("E_", c["bname"], 21), ("x0_", c["names"][0], 21)]
-    rc, mout, err = V.run_lines(model, ["LABEL %d %s %s" % (w, p or "-", n) for p, n, w in cols])
-    if rc != 0 or len(mout) != len(cols):
+    # the model's own label line for this configuration (prefixes and widths from the Coq table col_label)
+    cfgv = [{"id": i, "type": "z", "value": True, "velocity": True, "aforce": True} for i in range(len(c["names"]))]
+    cfgb = [{"id": 0, "kind": "harmonic", "vars": [0], "energy": True, "centers": True}]
+    line = " ".join(["TRAJN", str(len(c["names"]))] + ["%d %s" % (i, n) for i, n in enumerate(c["names"])] + ["1", "0", c["bname"], "1"]
+                    + enc_cfg(cfgv, cfgb) + ["1", "C", "0"])
+    rc, mout, err = V.run_lines(model, [line])
+    if rc != 0 or len(mout) != 1:
         run.mismatch("label-model", c, err[-300:], mout[:3])
         return 0
-    if lab != mout:
-        run.mismatch("labeltext", c, lab, mout)
+    mlab = mout[0].split(" ; ")[0].split()[1:]
+    if lab != mlab:
+        run.mismatch("labeltext", c, lab, mlab)
     # oracle: a reader must be able to tell which column is which
     run.dist("oracle:label-text")
     full = [p + n for p, n, w in cols]
@@ -1675,11 +1747,157 @@ def gen_label_case(r, tier):
     return {"kind": "label", "names": names, "bname": nm(r.choice([3, 19, 24]))}
 
 
+
+# ------------------------------------------------------------------ what is on disk before the end of the run
+def disk_scenario(c, k):
+    v = {"id": 0, "type": "z", "value": True, "velocity": c["vel"]}
+    L = ["echo CASE %d" % k, "natoms 2", "temperature 300", "dt 1.0", "prefix c%ds0" % k, "restartfreq %d" % c["R"], "new"]
+    if c["it0"]:
+        L.append("setstep %d" % c["it0"])
+    L += heredoc(["colvarsTrajFrequency %d" % c["freq"]] + var_block(v)) + ["show atomf 0 cv 0 bias 0 energy 0"]
+    for j, x in enumerate(c["xs"]):
+        L += ["pos 1 0 0 %s" % hx(x), "step", "diskcopy c%ds0.colvars.traj snap_%d_%d" % (k, k, j)]
+    L += ["flush", "restartfreq 0", "echo END %d" % k]
+    return L
+
+
+def check_disk_case(run, c, k, impl_lines, scratch, model):
+    replay = {"kind": "disk", "case": c}
+    final = open(os.path.join(scratch, "c%ds0.colvars.traj" % k)).read().split("\n") if os.path.exists(os.path.join(scratch, "c%ds0.colvars.traj" % k)) else []
+    final = [l for l in final if l]
+    its = [c["it0"] + j for j in range(len(c["xs"]))]
+    cfg = enc_cfg([{"id": 0, "type": "z", "value": True, "velocity": c["vel"]}], [])
+    rc, mout, err = V.run_lines(model, ["DISK %d %d %d %s %d %s" % (c["R"], c["freq"], c["it0"], " ".join(cfg), len(its), " ".join(str(i) for i in its))])
+    if rc != 0 or len(mout) != 1:
+        run.mismatch("disk-model", c, err[-300:], mout[:2])
+        return 0
+    counts = [int(q) for q in mout[0].split()]
+    n = 0
+    for j, it in enumerate(its):
+        sp = os.path.join(scratch, "snap_%d_%d" % (k, j))
+        txt = open(sp).read() if os.path.exists(sp) else ""
+        snap = [l for l in txt.split("\n") if l]
+        complete = snap if txt.endswith("\n") or not txt else snap[:-1]
+        n += 1
+        run.dist("oracle:disk-snapshot")
+        # oracle: every line written up to the last step on the restart grid is on disk; nothing that is not in the final file
+        synced = [i for i in its[:j + 1] if c["R"] and i % c["R"] == 0]
+        must = 0
+        if synced:
+            last = synced[-1]
+            must = len([l for l in final if l.startswith("#") is False and int(l.split()[0]) <= last])
+        have = len([l for l in complete if not l.startswith("#")])
+        if complete != final[:len(complete)]:
+            run.violation("disk:not-a-prefix", "after step %d the file on disk is not a prefix of the final file" % it, replay)
+        elif have < must:
+            run.violation("disk:lines-missing-after-sync", "after step %d (restart frequency %d) the file on disk has %d data lines; %d were written up to "
+                          "the last synchronisation" % (it, c["R"], have, must), replay)
+        # tie: with small outputs the stream never spills, the disk is exactly what the model says
+        if len(complete) != counts[j]:
+            run.mismatch("disk-lines", c, (it, len(complete)), (it, counts[j]))
+    return n
+
+
+def gen_disk_case(r, tier):
+    return {"kind": "disk", "freq": r.choice([1, 1, 2, 3]), "R": r.choice([0, 2, 3, 4, 5]), "it0": r.choice([0, 0, r.randint(1, 20), 999]),
+            "vel": r.random() < 0.5, "xs": [V.dyadic(r, -4, 4, 3) for _ in range(r.randint(3, 12))]}
+
+
+
+# ------------------------------------------------------------------ multicolumn grid files in 1, 2 and 3 dimensions
+def grid_scenario(c, k):
+    L = ["echo CASE %d" % k, "natoms %d" % (2 * len(c["dims"])), "temperature 300", "dt 1.0", "prefix c%ds0" % k, "restartfreq 0", "new"]
+    conf = ["colvarsTrajFrequency 0"]
+    for i, (n, lo, w) in enumerate(c["dims"]):
+        conf += ["colvar {", "  name v%d" % i, "  lowerBoundary %r" % lo, "  upperBoundary %r" % (lo + n * w), "  width %r" % w, "  distanceZ {",
+                 "    main { atomNumbers %d }" % (2 * i + 1), "    ref { dummyAtom (0,0,0) }", "    axis (0,0,1)", "  }", "}"]
+    conf += ["histogram {", "  name b0", "  colvars " + " ".join("v%d" % i for i in range(len(c["dims"]))), "}"]
+    L += heredoc(conf) + ["show atomf 0 cv 0 bias 0 energy 0"]
+    for xs in c["xs"]:
+        for i, x in enumerate(xs):
+            L.append("pos %d 0 0 %s" % (2 * i + 1, hx(x)))
+        L.append("step")
+    L += ["postrun", "gdump", "flush", "echo END %d" % k]
+    return L
+
+
+def check_grid_case(run, c, k, impl_lines, scratch, model):
+    replay = {"kind": "grid", "case": c}
+    if any(l.startswith("CONFIG err=") and "err=ok" not in l for l in impl_lines):
+        run.mismatch("grid-run", c, [l for l in impl_lines if "err=" in l][:4], "configuration succeeds")
+        return 0
+    gh = [l for l in impl_lines if l.startswith("GH b0 ")]
+    path = os.path.join(scratch, "c%ds0.b0.dat" % k)
+    if not gh or not os.path.exists(path):
+        run.mismatch("grid-run", c, "no grid dump / file", "histogram file written at the end of the run")
+        return 0
+    data = [float.fromhex(q) for q in gh[-1].split("data=")[1].split(",")]
+    raw = open(path).read().split("\n")
+    if raw and raw[-1] == "":
+        raw.pop()
+    header = [l for l in raw if l.startswith("#")]
+    body = raw[len(header):]
+    flines = []
+    for l in body:
+        t = l.split()
+        flines.append("B" if not t else ("D", [float(q) for q in t[:len(c["dims"])]], [float(q) for q in t[len(c["dims"]):]]))
+    # ---- oracle on the file alone: header = configured geometry; blank line exactly when the last index restarts;
+    #      coordinates = bin centres in row-major order (last variable fastest)
+    nd = len(c["dims"])
+    run.dist("oracle:multicol:%dd" % nd)
+    ok_header = len(header) == nd + 1 and header[0].split() == ["#", str(nd)]
+    for i, (n, lo, w) in enumerate(c["dims"]):
+        t = header[i + 1].split() if ok_header else []
+        ok_header = ok_header and len(t) == 5 and close(float(t[1]), lo) and close(float(t[2]), w) and int(t[3]) == n
+    if not ok_header:
+        run.violation("gridfile:header", "header %s does not state the grid %s" % (header, c["dims"]), replay)
+    import itertools
+    want = []
+    for ix in itertools.product(*[range(n) for n, _, _ in c["dims"]]):
+        if ix[-1] == 0:
+            want.append("B")
+        want.append(("D", [lo + (i + 0.5) * w for i, (n, lo, w) in zip(ix, c["dims"])]))
+    got_shape = ["B" if f == "B" else ("D", f[1]) for f in flines]
+    if len(got_shape) != len(want) or any((a == "B") != (b == "B") or (a != "B" and not close(a[1], b[1])) for a, b in zip(got_shape, want)):
+        run.violation("gridfile:layout", "records/blank lines of the file do not follow the grid's index order (first lines %s, expected %s)"
+                      % (got_shape[:4], want[:4]), replay)
+    # ---- tie: the model's lines for this geometry and the values read from the object
+    line = "MULTICOL %d %s %d %s" % (nd, " ".join("%d %s %s" % (n, hx(lo), hx(w)) for n, lo, w in c["dims"]), len(data), " ".join(hx(q) for q in data))
+    rc, mout, err = V.run_lines(model, [line])
+    if rc != 0 or len(mout) != 1:
+        run.mismatch("grid-model", c, err[-300:], mout[:2])
+        return 0
+    mlines = []
+    for part in mout[0].split(" ; "):
+        if part.strip() == "B":
+            mlines.append("B")
+        else:
+            a, b = part[2:].split("|")
+            mlines.append(("D", [float.fromhex(q) for q in a.strip().split(",")], [float.fromhex(q) for q in b.strip().split(",")]))
+    if len(mlines) != len(flines) or any((a == "B") != (b == "B") for a, b in zip(flines, mlines)):
+        run.mismatch("gridfile-structure", c, len(flines), len(mlines))
+        return 0
+    for a, b in zip(flines, mlines):
+        if a != "B" and (not close(a[1], b[1]) or not close(a[2], b[2])):
+            run.mismatch("gridfile-values", c, a, b)
+            break
+    return len(flines)
+
+
+def gen_grid_case(r, tier):
+    nd = r.choice([1, 2, 2, 3])
+    dims = [(r.choice([1, 2, 3, 4] if nd > 1 else [2, 5, 8]), V.dyadic(r, -4, 2, 1), r.choice([0.5, 1.0, 2.0])) for _ in range(nd)]
+    xs = [[lo + V.dyadic(r, -0.5, n * w + 0.5, 3) for (n, lo, w) in dims] for _ in range(r.randint(3, 10))]
+    return {"kind": "grid", "dims": dims, "xs": xs}
+
+
 # ------------------------------------------------------------------ correlation function cases
 def acf_scenario(c, k):
     ty = c["vtype"]
     extra = ["  corrFunc on", "  corrFuncType %s" % c["type"], "  corrFuncLength %d" % c["len"], "  corrFuncStride %d" % c["stride"],
              "  corrFuncOffset %d" % c["off"], "  corrFuncNormalize %s" % ("on" if c["norm"] else "off")]
+    if c.get("outfile"):
+        extra.append("  corrFuncOutputFile c%ds0.v0.corrfunc.dat" % k)      # the default name, given explicitly
     blocks = []
     if c["cross"]:
         extra.append("  corrFuncWithColvar v1")
@@ -1719,6 +1937,8 @@ def tval(c, x):
     if c["vtype"] == "unit":
         n = math.sqrt(x[0] * x[0] + x[1] * x[1] + x[2] * x[2])
         return [x[0] / n, x[1] / n, x[2] / n]
+    if c["vtype"] == "cart":
+        return list(x) + [0.0, 0.0, 0.0]
     return x
 
 
@@ -1862,7 +2082,8 @@ def check_acf_case(run, c, k, impl_lines, scratch, model):
                 if la != lb:
                     run.violation(sig + ":lag", "row labelled with lag %d holds the value accumulated for lag %d" % (la, lb), replay)
                     break
-                if not close(va, vb, 1e-9 if c["type"] == "coordinate_p2" else OTOL):
+                scale_ = max([abs(q[1]) for q in orows] + [1e-300])     # a correlation that is exactly 0 is written as rounding noise
+                if not close(va, vb, 1e-9 if c["type"] == "coordinate_p2" else OTOL) and abs(va - vb) > 1e-13 * scale_:
                     run.violation(sig + ":value", "C(%d) written as %r, the documented %scorrelation over the %d time origins is %r"
                                   % (la, va, "normalised " if c["norm"] else "", n, vb), replay)
                     break
@@ -1870,16 +2091,17 @@ def check_acf_case(run, c, k, impl_lines, scratch, model):
     if [a for a, _ in irows] != [a for a, _ in mrows]:
         run.mismatch("acf:lags", c, [a for a, _ in irows], [a for a, _ in mrows])
         return 0
+    mscale = max([abs(q[1]) for q in mrows] + [1e-300])
     for (la, va), (lb, vb) in zip(irows, mrows):
-        if not close(va, vb, 1e-10):
+        if not close(va, vb, 1e-10) and abs(va - vb) > 1e-13 * mscale:
             run.mismatch("acf:value", c, (la, va), (lb, vb))
     return len(irows)
 
 
 def gen_acf_case(r, tier):
     ty = r.choice(["coordinate", "coordinate", "velocity", "coordinate_p2"])
-    vtype = r.choice(["vec", "unit"]) if ty == "coordinate_p2" else r.choice(["z", "z", "vec", "unit", "zper"])
-    if ty == "velocity" and vtype in ("unit", "zper"):
+    vtype = r.choice(["vec", "unit"]) if ty == "coordinate_p2" else r.choice(["z", "z", "vec", "unit", "zper", "cart"])
+    if ty == "velocity" and vtype in ("unit", "zper", "cart"):
         vtype = "z"          # velocities of these types go through dist2_lgrad: not modelled
     ln = r.choice([1, 2, 3, 4])
     stride = r.choice([1, 1, 2, 3])
@@ -1908,7 +2130,8 @@ def gen_acf_case(r, tier):
         else:
             events.append(["step", val(), val() if cross else None])
     return {"kind": "acf", "type": ty, "vtype": vtype, "len": ln, "stride": stride, "off": off, "norm": r.random() < 0.6,
-            "cross": cross, "R": r.choice([R, R, 0]), "it0": it0, "dt": dt, "events": events, "post": r.random() < 0.5}
+            "cross": cross, "R": r.choice([R, R, 0]), "it0": it0, "dt": dt, "events": events, "post": r.random() < 0.5,
+            "outfile": r.random() < 0.3}
 
 
 # ------------------------------------------------------------------ fixed scenarios (witnesses of the _refuted stage, kept as corpus)
@@ -1940,8 +2163,8 @@ def corpus_cases():
     return cs
 
 
-SCEN = {"traj": traj_scenario, "runave": runave_scenario, "acf": acf_scenario, "runavev": runavev_scenario, "out": out_scenario, "label": label_scenario}
-CHECK = {"traj": check_traj_case, "runave": check_runave_case, "acf": check_acf_case, "runavev": check_runavev_case, "out": check_out_case, "label": check_label_case}
+SCEN = {"traj": traj_scenario, "runave": runave_scenario, "acf": acf_scenario, "runavev": runavev_scenario, "out": out_scenario, "label": label_scenario, "disk": disk_scenario, "grid": grid_scenario}
+CHECK = {"traj": check_traj_case, "runave": check_runave_case, "acf": check_acf_case, "runavev": check_runavev_case, "out": check_out_case, "label": check_label_case, "disk": check_disk_case, "grid": check_grid_case}
 
 
 def run_cases(run, cases, unit, model, scratch):
@@ -1986,6 +2209,10 @@ def run_cases(run, cases, unit, model, scratch):
             run.dist("runave:L=%d,stride=%d" % (c["L"], c["stride"]))
         elif c["kind"] == "label":
             run.dist("label")
+        elif c["kind"] == "disk":
+            run.dist("disk:R=%d" % c["R"])
+        elif c["kind"] == "grid":
+            run.dist("grid:%dd" % len(c["dims"]))
         elif c["kind"] == "out":
             run.dist("out:R=%d" % c["R"])
         elif c["kind"] == "runavev":
@@ -2034,6 +2261,10 @@ def check(run):
         cases.append(gen_out_case(r, run.tier))
     for _ in range(30 * mult):
         cases.append(gen_label_case(r, run.tier))
+    for _ in range(30 * mult):
+        cases.append(gen_disk_case(r, run.tier))
+    for _ in range(30 * mult):
+        cases.append(gen_grid_case(r, run.tier))
     total = run_cases(run, cases, unit, model, scratch)
     run.cov["rule"] = ("a case is one scenario (trajectory / running average / correlation function) driven through the engine "
                        "simulator; distinct = distinct configuration+length; nontrivial = at least one written number was compared")
